@@ -101,12 +101,13 @@ class Skeleton:
         self.meta = meta or {}
         self.optvars = {}
         self.variants = variants or []      # extra runs of the same input with some options overridden (relational oracles)
+        self.alt_templates = []             # extra runs on other source texts sharing the same leaves (relational oracles over inputs)
 
     def sample_source(self):
         d = {l.name: l.sample for l in self.leaves}
         return self.template.format(**d)
 
-    def render_source(self, model):
+    def render_source(self, model, template=None):
         d = {}
         for l in self.leaves:
             s = l.render(model)
@@ -115,7 +116,10 @@ class Skeleton:
             elif l.kind == 'str':
                 s = render_attr_str(s)
             d[l.name] = s
-        return self.template.format(**d)
+        return (template or self.template).format(**d)
+
+    def sample_alt(self, template):
+        return template.format(**{l.name: l.sample for l in self.leaves})
 
     def sym_options(self):
         """-> (opts for make_visitor, json-able description builder)"""
@@ -235,6 +239,13 @@ def parse_skeleton(e3, skel):
     return _PARSE_CACHE[key]
 
 
+def _parse_alt(e3, skel, template):
+    key = (skel.sample_alt(template), skel.tsx)
+    if key not in _PARSE_CACHE:
+        _PARSE_CACHE[key] = e3.run(key[0], {}, skel.tsx)
+    return _PARSE_CACHE[key]
+
+
 def run_skeleton(it, e3, skel, oracle, stats=None, deadline=None, max_paths=20000, want_samples=1, extra_base=()):
     """explore all paths of the real visitor on the skeleton; -> result dict (picklable)"""
     st = stats if stats is not None else Stats()
@@ -276,8 +287,19 @@ def run_skeleton(it, e3, skel, oracle, stats=None, deadline=None, max_paths=2000
                 pass
             world.run_module(it, ctx, p2, o2, r0, comments)
             posts.append(p2); diags_all.append(list(ctx.diags))
+        alt_pres = []; alt_posts = []
+        for at in skel.alt_templates:
+            ra = _parse_alt(e3, skel, at)
+            if 'pre' not in ra:
+                raise Unsupported('harness: alternative source does not parse: %s' % ra.get('parse_error'))
+            pa = astio.read_program(ra['pre']); symbolise(pa, skel.leaves)
+            ia = astio.read_program(ra['pre']); symbolise(ia, skel.leaves)
+            ctx.diags = []
+            world.run_module(it, ctx, pa, opts, ra, world.comments_map(ra))
+            alt_pres.append(ia); alt_posts.append(pa); diags_all.append(list(ctx.diags))
         ctx.diags = diags_all[0]
-        env = Env(inp, pre, ctx.diags, opts, ctx, skel, {'comments': comments, 'resp': r0, 'posts': posts, 'diags_all': diags_all, 'variants': skel.variants})
+        env = Env(inp, pre, ctx.diags, opts, ctx, skel, {'comments': comments, 'resp': r0, 'posts': posts, 'diags_all': diags_all, 'variants': skel.variants,
+                                                         'alt_pres': alt_pres, 'alt_posts': alt_posts})
         ctx.env = env
         return oracle(env)
 
@@ -306,7 +328,8 @@ def run_skeleton(it, e3, skel, oracle, stats=None, deadline=None, max_paths=2000
             o = skel.concrete_options(r.model, r.ctx)
             info = r.obligation.info if r.obligation is not None else None
             res['violations'].append({'skeleton': skel.sid, 'kind': r.kind, 'obligation': r.detail, 'source': src, 'options': o, 'tsx': skel.tsx,
-                                      'info': _plain(r.model, info), 'variants': [{world.JSON_NAMES.get(k, k): v for k, v in ov.items()} for ov in skel.variants]})
+                                      'info': _plain(r.model, info), 'variants': [{world.JSON_NAMES.get(k, k): v for k, v in ov.items()} for ov in skel.variants],
+                                      'alt_sources': [skel.render_source(r.model, at) for at in skel.alt_templates]})
         elif r.kind == 'budget':
             res['inconclusive'].append('%s: %s' % (skel.sid, r.detail))
         else:
@@ -384,7 +407,15 @@ def native_check(e3, oracle, violation, skel_like=None):
         if r2.get('crash') or 'panic' in r2:
             return True, {'native': 'panic', 'message': r2.get('panic', 'process died'), 'variant': ov}
         posts.append(astio.read_program(r2['post'])); diags_all.append(list(r2.get('diags', []))); codes.append(r2.get('code'))
-    env = Env(pre, post, cctx.diags, opts, cctx, skel_like, {'resp': r, 'comments': world.comments_map(r), 'code': r.get('code'), 'reparse_ok': r.get('reparse_ok'),
+    alt_pres = []; alt_posts = []
+    for asrc in violation.get('alt_sources') or []:
+        ra = e3.run(asrc, violation['options'], violation.get('tsx', False))
+        if ra.get('crash') or 'panic' in ra:
+            return True, {'native': 'panic', 'message': ra.get('panic', 'process died'), 'alt': True}
+        if 'pre' not in ra:
+            return None, {'native': 'parse_error', 'message': ra.get('parse_error')}
+        alt_pres.append(astio.read_program(ra['pre'])); alt_posts.append(astio.read_program(ra['post'])); diags_all.append(list(ra.get('diags', [])))
+    env = Env(pre, post, cctx.diags, opts, cctx, skel_like, {'alt_pres': alt_pres, 'alt_posts': alt_posts, 'resp': r, 'comments': world.comments_map(r), 'code': r.get('code'), 'reparse_ok': r.get('reparse_ok'),
                                                              'posts': posts, 'diags_all': diags_all, 'codes': codes,
                                                              'variants': [{world.RUST.get(k, k): v for k, v in ov.items()} for ov in (violation.get('variants') or [])]})
     try:
